@@ -452,10 +452,21 @@ func (c *checker) check(g ctx, alias string, A *Ty, t *Term) *rej {
 			if U.K != KRecv {
 				return no("type-mismatch", "recv on self at type %s", U.K)
 			}
-			if selfish("", t.Y, t.Z) {
-				return unk("binder-is-self", "recv")
+			if selfish("", t.Y) {
+				return unk("payload-binder-is-self", "recv on self")
 			}
 			y, z := Base(t.Y), Base(t.Z)
+			if selfish("", t.Z) {
+				// the provider goes on under the name self: nothing is bound, nothing is lost
+				if g.has(y) {
+					return no("shadow", "recv binder %s", y)
+				}
+				if r := firstRej(c.pol(t.X, U, at), c.pol(t.Y, U.L, at)); r != nil {
+					return r
+				}
+				g.set(y, U.L)
+				return c.check(g, "", U.R, t.Cont)
+			}
 			if g.has(y) {
 				return no("shadow", "recv binder %s", y)
 			}
@@ -474,7 +485,7 @@ func (c *checker) check(g ctx, alias string, A *Ty, t *Term) *rej {
 			if selfish("", t.Y, t.Z) {
 				return no("misuse-self", "recv binds self")
 			}
-			return unk("binder-is-alias", "recv")
+			return no("shadow", "recv binds the name the provider goes by")
 		default:
 			tx, r := c.take(g, t.X, at)
 			if r != nil {
@@ -575,7 +586,14 @@ func (c *checker) check(g ctx, alias string, A *Ty, t *Term) *rej {
 				return no("label", "branch %s not in type", b.Lbl)
 			}
 			if selfish("", b.Var) {
-				return unk("binder-is-self", "case")
+				if !right {
+					return no("shadow", "case binds self: the bound channel is lost")
+				}
+				// case on self: the provider goes on under the name self
+				if r := c.check(g.copy(), "", bt, b.Body); r != nil {
+					return r
+				}
+				continue
 			}
 			v := Base(b.Var)
 			if r := c.pol(b.Var, bt, at); r != nil {
@@ -585,12 +603,12 @@ func (c *checker) check(g ctx, alias string, A *Ty, t *Term) *rej {
 			var r *rej
 			if right {
 				if g2.has(v) {
-					return unk("alias-shadows-context", "case self binder %s", v)
+					return no("shadow", "case on self: binder %s is a name still in scope", v)
 				}
 				r = c.check(g2, v, bt, b.Body)
 			} else {
 				if v == alias && alias != "" {
-					return unk("binder-is-alias", "case")
+					return no("shadow", "case binds the name the provider goes by")
 				}
 				if g2.has(v) {
 					return no("shadow", "case binder %s", v)
@@ -610,10 +628,10 @@ func (c *checker) check(g ctx, alias string, A *Ty, t *Term) *rej {
 	case "new":
 		y := Base(t.Y)
 		if selfish("", t.Y) {
-			return unk("binder-is-self", "new")
+			return no("shadow", "new binds self: the bound channel is lost")
 		}
 		if y == alias && alias != "" {
-			return unk("binder-is-alias", "new")
+			return no("shadow", "cut binds the name the provider goes by")
 		}
 		reused := g.has(y)
 		inBody := false
@@ -809,10 +827,10 @@ func (c *checker) check(g ctx, alias string, A *Ty, t *Term) *rej {
 			return r
 		}
 		if selfish("", t.Y, t.Z) {
-			return unk("binder-is-self", "split")
+			return no("shadow", "split binds self: the bound channel is lost")
 		}
 		if selfish(alias, t.Y, t.Z) {
-			return unk("binder-is-alias", "split")
+			return no("shadow", "split binds the name the provider goes by")
 		}
 		y, z := Base(t.Y), Base(t.Z)
 		if g.has(y) {
@@ -883,7 +901,11 @@ func (c *checker) check(g ctx, alias string, A *Ty, t *Term) *rej {
 				return no("type-mismatch", "shift self at type %s", U.K)
 			}
 			if selfish("", t.Y) {
-				return unk("binder-is-self", "shift")
+				// shift on self: the provider goes on under the name self
+				if r := c.pol(t.X, U, at); r != nil {
+					return r
+				}
+				return c.check(g, "", U.L, t.Cont)
 			}
 			y := Base(t.Y)
 			if g.has(y) {
@@ -897,7 +919,7 @@ func (c *checker) check(g ctx, alias string, A *Ty, t *Term) *rej {
 			if selfish("", t.Y) {
 				return no("misuse-self", "shift binds self")
 			}
-			return unk("binder-is-alias", "shift")
+			return no("shadow", "shift binds the name the provider goes by")
 		default:
 			tx, r := c.take(g, t.X, at)
 			if r != nil {
